@@ -85,6 +85,8 @@ def judge(sim, ev, rec):
         judge_resp(sim, ev, rec)
     elif k in ("answer", "unsol"):
         judge_answer(sim, ev, rec)
+    elif k == "aq_answer":
+        pass
     elif k == "req":
         judge_req(sim, ev, rec)
 
@@ -273,6 +275,8 @@ def judge_resp(sim, ev, rec):
             hits.append(("C20", "no-genuine-verify." + what, "id=%s tool=%s" % (
                 ident, [(t.get("op"), t.get("fault"), t.get("healthy_ok")) for t in rec["tool"]]), enc))
     wrs, was, waors = bool(spec.get("wrs")), bool(spec.get("was")), bool(spec.get("waors"))
+    if rec.get("msgkind") == "attribute_response":
+        wrs = was = waors = False       # the three options are documented for authentication responses
     a_signed_all = bool(eff) and all(a["signed"] for a in eff)
     if wrs and not m["signed"]:
         hits.append(("C02", "required-missing.response", "", False))
@@ -320,6 +324,7 @@ def judge_resp(sim, ev, rec):
             pass
         own = [u for k, u in sp.endpoints.items()
                if k.startswith("acs_") and (k != "acs_post2" or spec.get("acs2"))
+               and (k != "acs_redirect" or not spec.get("no_redirect_acs"))
                and (("redirect" in k) == (rec["via_binding"] == "redirect"))]
         dest = m["destination"]
         if dest:
